@@ -176,6 +176,39 @@ fn case(rec: &mut Rec, ctx: &Ctx, idx: u64, rng: &mut ChaCha20Rng, servers: &[(S
   }
 }
 
+/// every input length around block / buffer boundaries: for one input of each
+/// length, outputs must differ between two servers and between two tags, and
+/// equal the server's direct evaluation
+fn length_sweep(rec: &mut Rec, _ctx: &Ctx, len: u64, rng: &mut ChaCha20Rng, servers: &[(Server, Vec<u8>)], g: &Global) {
+  let input = rand_bytes(rng, len as usize);
+  for (si, (server, tags)) in servers.iter().enumerate().take(2) {
+    for &tag in [tags[0], *tags.last().unwrap()].iter() {
+      rec.evals += 1;
+      rec.ev("rounds");
+      rec.ev("length_sweep_rounds");
+      rec.case(&("len", si, tag, len));
+      let key: Key3 = (si, tag, input.clone());
+      let (blinded, r) = Client::blind(&input);
+      let p_in = Client::unblind(&blinded, &r);
+      let ev = match server.eval(&blinded, tag, false) {
+        Ok(e) => e,
+        Err(_) => return,
+      };
+      let unblinded = Client::unblind(&ev.output, &r);
+      if let Ok(d) = server.eval(&p_in, tag, false) {
+        rec.ev("direct_evaluations");
+        if d.output != unblinded {
+          rec.violation("unblinded-differs-from-direct-evaluation", format!("input length {}", len), k3(&key));
+        }
+      }
+      let mut out = [0u8; 32];
+      Client::finalize(&input, tag, &unblinded, &mut out);
+      inject(rec, &g.points, "unblinded-result-point", unblinded.as_bytes(), &key);
+      inject(rec, &g.outputs, "finalised-output", &out, &key);
+    }
+  }
+}
+
 pub fn run(ctx: &Ctx) -> Rec {
   // independently keyed servers with different tag sets (incl. 0 and 255, adjacent tags, all 256)
   let mut r0 = case_rng(ctx, "servers", 0);
@@ -196,6 +229,9 @@ pub fn run(ctx: &Ctx) -> Rec {
     input_points: Mutex::new(HashMap::new()),
   };
   let mut rec = par_run(ctx, "rounds", ctx.n(48, 2400), |rec, i, rng| case(rec, ctx, i, rng, &servers, &g));
+  let max_len = if ctx.thorough() { 1100 } else { 340 };
+  rec.merge(par_run(ctx, "length-sweep", max_len, |rec, i, rng| length_sweep(rec, ctx, i, rng, &servers, &g)));
+  rec.note("length_sweep_max", json!(max_len));
   rec.note("distinct_blinded_requests", json!(g.blinded.lock().unwrap().len()));
   rec.note("distinct_result_points", json!(g.points.lock().unwrap().len()));
   rec.note("servers", json!(servers.len()));
